@@ -25,6 +25,8 @@ def opOf? (n me nt : Nat) : Term → Option (Bool × Op)
   | .atom "lpurge" => some (true, .lpurge)
   | .atom "unsub" => some (false, .unsub)
   | .atom "bmp" => some (false, .bmp)
+  | .atom "mrt" => some (false, .mrt)
+  | .list [.atom "watch", i, po] => do pure (false, .watch (← asBool? i) (← asBool? po))
   | .list [.atom "sr", p] => do
       let p ← asNat? p
       if p < nt then some (true, .sr p) else none
@@ -40,7 +42,7 @@ def opOf? (n me nt : Nat) : Term → Option (Bool × Op)
 
 def threadOf? (n nt : Nat) (me : Nat) : Term → Option (Bool × List Op)
   | .list (.atom kind :: ops) => do
-      let writer ← (match kind with | "w" => some true | "s" => some false | _ => none)
+      let writer ← (match kind with | "w" => some true | "wa" => some true | "s" => some false | _ => none)
       let ps ← ops.mapM (opOf? n me nt)
       if ps.all (fun p => p.1 == writer) then some (writer, ps.map (·.2)) else none
   | _ => none
@@ -66,12 +68,16 @@ def caseOf? : Term → Option Case
       let threads ← mapIdxM (threadOf? n ths.length) 0 ths
       if !srOk threads then none
       -- a BMP connection of a peer without ADD-PATH carries no path ids: such cases use path id 0 only
-      let hasBmp := threads.any fun t => t.2.any fun o => o == .bmp
+      let hasBmp := threads.any fun t => t.2.any fun o => match o with
+        | .bmp => true | .mrt => true | .watch _ _ => true | _ => false
       let hasPid := threads.any fun t => t.2.any fun o => match o with
         | .ins _ _ p _ => p != 0 | .rem _ _ p => p != 0 | _ => false
       if hasBmp && hasPid then none
       let sc ← sc.mapM asNat?
-      some { n := n, gran := g, limit := l, threads := threads, sched := sc }
+      let aps := (List.range ths.length).filter fun i => match ths[i]? with
+        | some (.list (.atom "wa" :: _)) => true
+        | _ => false
+      some { n := n, gran := g, limit := l, threads := threads, sched := sc, addpath := aps }
   | _ => none
 
 /-! ### observations -/
@@ -115,23 +121,42 @@ def histOf? : Term → Option (List Item × List Item)
   | .list [a, b] => do pure ((← asListOf? itemOf? a), (← asListOf? itemOf? b))
   | _ => none
 
+def apsT (a : List Bool × List Bool) : Term := list [ofList bool a.1, ofList bool a.2]
+def apsOf? : Term → Option (List Bool × List Bool)
+  | .list [a, b] => do pure ((← asListOf? asBool? a), (← asListOf? asBool? b))
+  | _ => none
+
 def subT (s : SubObs) : Term :=
-  if s.bmp then
-    tag "bmp" [nat s.tid, nat s.nth, tag "whist" (s.whist.map histT),
-      tag "wctl" (s.wctl.map fun l => list (l.map ctlT))]
-  else
+  match s.kind with
+  | 0 =>
     tag "sub" [nat s.tid, nat s.nth, bool s.want, bool s.live,
       tag "ctl" (s.ctl.map ctlT), tag "hist" (s.hist.map histT), tag "snap" (s.snap.map pairT),
-      tag "fwd" (s.fwd.map ctlT)]
+      tag "fwd" (s.fwd.map ctlT), tag "aps" (s.aps.map apsT)]
+  | 1 =>
+    tag "bmp" [nat s.tid, nat s.nth, tag "whist" (s.whist.map histT),
+      tag "wctl" (s.wctl.map fun l => list (l.map ctlT))]
+  | 2 => tag "mrt" [nat s.tid, nat s.nth, tag "whist" (s.whist.map histT), tag "aps" (s.aps.map apsT)]
+  | k =>
+    tag "watch" [nat s.tid, nat s.nth, bool s.want, bool (k == 4), tag "whist" (s.whist.map histT),
+      tag "wctl" (s.wctl.map fun l => list (l.map ctlT))]
 def subOf? : Term → Option SubObs
   | .list [.atom "sub", tid, nth, want, live, .list (.atom "ctl" :: ctl), .list (.atom "hist" :: hist),
-           .list (.atom "snap" :: snap), .list (.atom "fwd" :: fwd)] => do
-      pure { tid := ← asNat? tid, nth := ← asNat? nth, want := ← asBool? want, live := ← asBool? live, bmp := false
+           .list (.atom "snap" :: snap), .list (.atom "fwd" :: fwd), .list (.atom "aps" :: aps)] => do
+      pure { tid := ← asNat? tid, nth := ← asNat? nth, want := ← asBool? want, live := ← asBool? live, kind := 0
              ctl := ← ctl.mapM ctlOf?, hist := ← hist.mapM histOf?, snap := ← snap.mapM pairOf?
-             fwd := ← fwd.mapM ctlOf?, whist := [], wctl := [] }
+             fwd := ← fwd.mapM ctlOf?, whist := [], wctl := [], aps := ← aps.mapM apsOf? }
   | .list [.atom "bmp", tid, nth, .list (.atom "whist" :: wh), .list (.atom "wctl" :: wc)] => do
-      pure { tid := ← asNat? tid, nth := ← asNat? nth, want := true, live := true, bmp := true
-             ctl := [], hist := [], snap := [], fwd := []
+      pure { tid := ← asNat? tid, nth := ← asNat? nth, want := true, live := true, kind := 1
+             ctl := [], hist := [], snap := [], fwd := [], aps := []
+             whist := ← wh.mapM histOf?, wctl := ← wc.mapM (asListOf? ctlOf?) }
+  | .list [.atom "mrt", tid, nth, .list (.atom "whist" :: wh), .list (.atom "aps" :: aps)] => do
+      pure { tid := ← asNat? tid, nth := ← asNat? nth, want := false, live := true, kind := 2
+             ctl := [], hist := [], snap := [], fwd := [], wctl := []
+             whist := ← wh.mapM histOf?, aps := ← aps.mapM apsOf? }
+  | .list [.atom "watch", tid, nth, init, post, .list (.atom "whist" :: wh), .list (.atom "wctl" :: wc)] => do
+      pure { tid := ← asNat? tid, nth := ← asNat? nth, want := ← asBool? init, live := true
+             kind := if (← asBool? post) then 4 else 3
+             ctl := [], hist := [], snap := [], fwd := [], aps := []
              whist := ← wh.mapM histOf?, wctl := ← wc.mapM (asListOf? ctlOf?) }
   | _ => none
 
